@@ -1488,8 +1488,8 @@ static void job_hist(FILE* script, const kv_t* kv0, FILE* out, int jobno) {
       size_t sz = h.o.size + (size_t)(int64_t)strtoll(kv_get(&kv, "dsize", "0"), NULL, 0);
       uint64_t ver = WUFFS_VERSION;
       const char* v = kv_get(&kv, "ver", "ok");
-      if (!strcmp(v, "major+1")) ver = WUFFS_VERSION + 0x10000;
-      else if (!strcmp(v, "minor+1")) ver = WUFFS_VERSION + 0x1;   // see below: decided on the Go side from the observed encoding
+      if (!strcmp(v, "major+1")) ver = WUFFS_VERSION + (1ull << 32);
+      else if (!strcmp(v, "minor+1")) ver = WUFFS_VERSION + (1ull << 16);
       else if (strcmp(v, "ok")) ver = strtoull(v, NULL, 0);
       uint32_t opts = (uint32_t)kv_u64(&kv, "opts", 0);
       g_mon.n = 0;
